@@ -19,12 +19,14 @@ TRUSTED = ["model Strophe/Model/Handler.lean tied to handler.c by differential e
            "py_oracle: independent Python reference written from the property text (snapshot semantics); "
            "it adopts the implementation's order of timed handlers within one pass (newest first), which "
            "the property leaves open"]
-ASSUMPTIONS = ["callbacks are scripts: per callback x user data, the k-th invocation returns keep/remove and performs "
+ASSUMPTIONS = ["handler.c has the shape extract/gen_handler.py reads off it (Gen/Handler.lean, pin_structure)",
+               "callbacks are scripts: per callback x user data, the k-th invocation returns keep/remove and performs "
                "a list of API calls (add stanza/id/timed/global handler, delete by callback, send, let time pass)",
                "virtual clock is monotone and stays below 2^64 ms",
                "allocation failures not modelled",
-               "no callback deletes its own callback function from the list it is being dispatched from "
-               "(self-delete: corpus/C11/self-delete-*.ops)"]
+               "KNOWN FINDING C11:self-delete:*: a callback that deletes its own callback function from the list it is "
+               "being dispatched from makes the loop read a freed item (model: Err.stale; theorems carry "
+               "`¬ SelfDeleting beh`); such programs are generated on purpose (marked stream + 3% of delete actions)"]
 RULE = ("systematic sweep (every list kind x every position i of the acting handler x every position j of the "
         "handler it deletes / every add kind x keep/remove) + random programs: 2-10 registrations sharing ids, "
         "namespaces, names, duplicates, system handlers; scripts of 1-4 steps with 0-3 API calls each; 5-40 ops of "
@@ -89,7 +91,9 @@ def g_action(rng, self_fn):
     if k < 0.40:
         return g_add(rng, "hhhiitg")
     if k < 0.80:
-        return g_del(rng, self_fn)
+        # rarely the handler's own callback function: harmless when it hits another list than the one
+        # the handler is dispatched from, the known finding `self-delete` otherwise
+        return g_del(rng, None if rng.random() < 0.03 else self_fn)
     if k < 0.92:
         return "send %d" % rng.randrange(NC)
     return "tick %d" % rng.choice(TICKS)
